@@ -1657,3 +1657,114 @@ V('c08-twin-helper-validator', 'C08', 'R8.1', LAYOUT,
             if part == '' or part == '.' or part == '..' or '\\0' in part:
                 raise NotSupportedError('Invalid mailbox name.')
         return parts''', expect='silent')
+
+# ---------------------------------------------------------------- C03
+MIMEPY = 'pymap/mime/__init__.py'
+UTILPY = 'pymap/mime/_util.py'
+MSGPY = 'pymap/message.py'
+FETCHPY = 'pymap/fetch.py'
+V('c03-append-strips', 'C03', 'R3.1', DICTMBX,
+  'content = MessageContent.parse(append_msg.literal)',
+  'content = MessageContent.parse(append_msg.literal.strip())')
+V('c03-parse-normalises', 'C03', 'R3.1', MIMEPY,
+  '''        lines = cls._find_lines(data)
+        view = memoryview(data)
+        return cls._parse(data, view, lines)''',
+  '''        data = data.replace(b'\\r\\n', b'\\n')
+        lines = cls._find_lines(data)
+        view = memoryview(data)
+        return cls._parse(data, view, lines)''')
+V('c03-body-bytes-rstrip', 'C03', 'R3.1', MIMEPY,
+  '''    def __len__(self) -> int:
+        return len(self._raw)
+
+    def __bytes__(self) -> bytes:
+        return bytes(self._raw)
+
+
+class MessageHeader(Writeable):''', '''    def __len__(self) -> int:
+        return len(self._raw)
+
+    def __bytes__(self) -> bytes:
+        return bytes(self._raw).rstrip()
+
+
+class MessageHeader(Writeable):''')
+V('c03-get-body-text-only', 'C03', 'R3.1', MSGPY,
+  '''        else:
+            if not section:
+                return msg
+            else:
+                return msg.body''', '''        else:
+            return msg.body''')
+V('c03-partial-decodes', 'C03', 'R3.1', FETCHPY,
+  '        full = bytes(data)', "        full = bytes(data).replace(b'\\0', b'')")
+V('c03-revert-get-raw', 'C03', 'R3.2', UTILPY,
+  '''    groups = [group for group in lines if group]
+    if not groups:
+        return view[0:0]
+    start = groups[0][0][0]
+    end = groups[-1][-1][2]
+    return view[start:end]''', '''    try:
+        start = lines[0][0][0]
+    except IndexError:
+        start = 0
+    try:
+        end = lines[-1][-1][2]
+    except IndexError:
+        end = -1
+    return view[start:end]''')
+V('c03-len-other-field', 'C03', 'R3.3', MIMEPY,
+  '''    def __len__(self) -> int:
+        return len(self._raw)
+
+    def __bytes__(self) -> bytes:
+        return bytes(self._raw)
+
+
+class MessageBody(Writeable):''', '''    def __len__(self) -> int:
+        return len(self._lines)
+
+    def __bytes__(self) -> bytes:
+        return bytes(self._raw)
+
+
+class MessageBody(Writeable):''')
+V('c03-split-drops-line', 'C03', 'R3.4', MIMEPY,
+  'return lines[0:i + 1], lines[i + 1:]', 'return lines[0:i], lines[i + 1:]')
+V('c03-partial-end-length', 'C03', 'R3.5', FETCHPY,
+  '            end = start + length', '            end = length')
+V('c03-size-of-body', 'C03', 'R3.6', MSGPY,
+  '''        except (IndexError, _NoContent):
+            return 0
+        return len(msg)''', '''        except (IndexError, _NoContent):
+            return 0
+        return len(msg.body)''')
+V('c03-revert-maildir-copy', 'C03', 'R3.7', MAILDIRMBX,
+  '''            record, _ = await self._get_maildir_msg(uid)
+            async with self.messages_lock.read_lock():
+                copy_msg = self._maildir.get_message(record.key)
+        except (KeyError, FileNotFoundError):
+            return None''', '''            record, maildir_msg = await self._get_maildir_msg(uid)
+        except (KeyError, FileNotFoundError):
+            return None
+        copy_msg = MaildirMessage(maildir_msg)''')
+V('c03-dict-copy-no-content', 'C03', 'R3.7', DICTMBX,
+  '''                   content=msg._content)''', '''                   content=None)''')
+# twins
+V('c03-twin-len-via-bytes', 'C03', 'R3.3', MIMEPY,
+  '''    def __len__(self) -> int:
+        return len(self._raw)
+
+    def __bytes__(self) -> bytes:
+        return bytes(self._raw)
+
+
+class MessageBody(Writeable):''', '''    def __len__(self) -> int:
+        return len(bytes(self))
+
+    def __bytes__(self) -> bytes:
+        return bytes(self._raw)
+
+
+class MessageBody(Writeable):''', expect='silent')
